@@ -338,6 +338,53 @@ class Models:
             return one(UNIT)
         if re.match(r"^Vec::<.*>::retain::<", c):
             return self.vec_retain(eng, args, st)
+        if re.match(r"^<std::slice::Iter<'_, .*> as Iterator>::position::<", c) and isinstance(deref(args[0]), IterV):
+            # first index (from the cursor) whose element satisfies the predicate; unrolled to the bound
+            it = deref(args[0])
+            clo = args[1]
+            out = []
+            none_conds = []
+            for i in range(it.idx, N_BOUND):
+                elem = Z(z3.Select(it.arr, i))
+                s_i = st.clone()
+                res = list(eng.call_closure(clo, [Ref(Cell(elem))], s_i))
+                if len(res) != 1:
+                    raise Unsupported("position predicate with more than one path")
+                hit = z3.And(i < it.length, res[0][1].e, *[z3.Not(c0) for c0 in none_conds])
+                none_conds.append(z3.And(i < it.length, res[0][1].e))
+                s_hit = res[0][0]
+                s_hit.pc.append(hit)
+                if s_hit.feasible():
+                    out.append((s_hit, Opt(z3.BoolVal(True), Z(z3.IntVal(i - it.idx)))))
+            st.pc.append(it.length <= N_BOUND)
+            st.pc.append(z3.Not(z3.Or(*none_conds)) if none_conds else z3.BoolVal(True))
+            if st.feasible():
+                out.append((st, Opt(z3.BoolVal(False), None)))
+            return out
+        if re.match(r"^Vec::<.*>::swap_remove$", c):
+            cell = args[0].cell
+            v, i = cell.v, args[1].e
+            last = v.length - 1
+            removed = z3.Select(v.arr, i)
+            cell.v = VecV(z3.Store(v.arr, i, z3.Select(v.arr, last)), last)
+            return one(Z(removed))
+        if re.match(r"^Vec::<.*>::remove$", c):
+            cell = args[0].cell
+            v, i = cell.v, args[1].e
+            arr2 = v.arr
+            for k in range(N_BOUND):
+                arr2 = z3.If(z3.And(k >= i, k < v.length - 1), z3.Store(arr2, k, z3.Select(v.arr, k + 1)), arr2)
+            removed = z3.Select(v.arr, i)
+            cell.v = VecV(arr2, v.length - 1)
+            return one(Z(removed))
+        if re.match(r"^<.* as Iterator>::zip::<", c):
+            return one(Opaque("zip", (Cell(args[0]), Cell(args[1]))))
+        if re.match(r"^<(std::iter::)?Zip<.*> as Iterator>::all::<", c):
+            return self.zip_all(eng, args, st)
+        if re.match(r"^<\(&(certificate::)?DnType, &DnValue\) as PartialEq>::(eq|ne)$", c):
+            a, b = deref(args[0]), deref(args[1])
+            e = z3.And(deref(a.fields[0].v).e == deref(b.fields[0].v).e, deref(a.fields[1].v).e == deref(b.fields[1].v).e)
+            return one(Z(z3.Not(e) if c.endswith("::ne") else e))
         if re.match(r"^<Vec<.*> as Deref>::deref$", c) or re.match(r"^Vec::<.*>::as_slice$", c):
             return one(Ref(args[0].cell))
         if re.match(r"^core::slice::<impl \[.*\]>::iter$", c):
@@ -390,6 +437,50 @@ class Models:
         if m:
             return self.writer_call(eng, m.group(1), m.group(2), args, st)
         return None
+
+    def zip_all(self, eng, args, st):
+        """Zip<A, B>::all(pred) over two DistinguishedName iterators: both are advanced in lock step until one
+        is exhausted; the result is false at the first pair that fails the predicate, true otherwise."""
+        z = deref(args[0]) if isinstance(args[0], Ref) else args[0]
+        clo_cell = Cell(args[1])
+        f_next = find(self.fns, r"::next$", r"^&mut DistinguishedNameIterator")
+        st.roots["__zip"] = Cell(z)
+        st.roots["__zipclo"] = clo_cell
+        out = []
+        work = [(st, 0)]
+        while work:
+            s, k = work.pop()
+            if k > N_BOUND:
+                raise Unsupported("zip longer than the bound")
+            for (s1, ra) in eng.run_fn(f_next, [Ref(s.roots["__zip"].v.data[0])], s):
+                if not isinstance(ra, Opt):
+                    raise Unsupported("zip: next() shape")
+                s_none = s1.clone()
+                s_none.pc.append(z3.Not(ra.cond))
+                if s_none.feasible():
+                    out.append((s_none, Z(z3.BoolVal(True))))
+                s1.pc.append(ra.cond)
+                if not s1.feasible():
+                    continue
+                s1.roots["__zip_a"] = Cell(ra.payload)
+                for (s2, rb) in eng.run_fn(f_next, [Ref(s1.roots["__zip"].v.data[1])], s1):
+                    s_none = s2.clone()
+                    s_none.pc.append(z3.Not(rb.cond))
+                    if s_none.feasible():
+                        out.append((s_none, Z(z3.BoolVal(True))))
+                    s2.pc.append(rb.cond)
+                    if not s2.feasible():
+                        continue
+                    pair = Agg("tuple", [Cell(s2.roots["__zip_a"].v), Cell(rb.payload)])
+                    for (s3, ok) in eng.call_closure(s2.roots["__zipclo"].v, [pair], s2):
+                        s_false = s3.clone()
+                        s_false.pc.append(z3.Not(ok.e))
+                        if s_false.feasible():
+                            out.append((s_false, Z(z3.BoolVal(False))))
+                        s3.pc.append(ok.e)
+                        if s3.feasible():
+                            work.append((s3, k + 1))
+        return out
 
     def len_of(self, v):
         """length of an opaque byte container"""
